@@ -18,7 +18,7 @@ META = dict(
     category='proof')
 
 QUICK = dict(spec=1700, multi=250, inf=300, plan=500, raw=900)
-THOROUGH = dict(spec=22000, multi=3000, inf=3000, plan=6000, raw=12000)
+THOROUGH = dict(spec=14000, multi=2000, inf=2000, plan=4000, raw=8000)
 
 DELTAS = [0.49, 0.5, 0.51, 1, 1.5, 2.25, 5]
 
